@@ -51,6 +51,17 @@ def gen_buffer_text(rng, mods, tag):
           '    return loc_%s.meth_%s(a_%s)' % (tag, tag, tag),
           '',
           '']
+    L += ['def gen_%s(n_%s):' % (tag, tag),
+          '    first_%s = n_%s' % (tag, tag),
+          '    yield first_%s' % tag,
+          '    yield "text"',
+          '',
+          '',
+          'for it_%s in gen_%s(1):' % (tag, tag),
+          '    it_%s.real' % tag,
+          'multi_%s = helper_%s(1,' % (tag, tag),
+          '                     2)',
+          '']
     L += ['val_%s = helper_%s(1, 2)' % (tag, tag),
           'val_%s.method(1)' % tag,
           'obj_%s = Local%s()' % (tag, tag),
@@ -99,6 +110,10 @@ STATEMENTS = [
     'x_{n} = (',
     ')',
     'def broken_{n}(',
+    '    yield {a}.Klass()',
+    '    yield 1.5',
+    'mc_{n} = {a}.func(1,',
+    '    2)',
 ]
 
 
@@ -128,7 +143,7 @@ class Editor:
         self.undo_stack = self.undo_stack[-6:]
         L = self.lines
         kinds = ['insert_line'] * 4 + ['delete_line'] * 3 + ['replace_line'] * 2 + ['insert_chars'] * 3 + \
-            ['delete_chars'] * 3 + ['indent', 'dedent', 'paste', 'undo', 'dup_block', 'edit_sig', 'edit_sig',
+            ['delete_chars'] * 3 + ['edit_yield', 'edit_yield', 'indent', 'dedent', 'paste', 'undo', 'dup_block', 'edit_sig', 'edit_sig',
                                     'move_def', 'rename_def', 'swap_lines', 'delete_block', 'append_use']
         k = rng.choice(kinds)
         if not L:
@@ -180,6 +195,21 @@ class Editor:
         elif k == 'delete_block':
             i = rng.randrange(len(L))
             del L[i:i + rng.randint(2, 6)]
+        elif k == 'edit_yield':
+            # change what a generator yields somewhere in the TAIL of its body (header and first
+            # statement untouched: the diff parser then keeps the funcdef node)
+            ys = [i for i, l in enumerate(L) if re.match(r'\s+(yield|return) ', l)]
+            if ys:
+                i = rng.choice(ys)
+                ind = re.match(r'\s+', L[i]).group(0)
+                choice = rng.random()
+                expr = rng.choice(['"s"', '1.5', 'b"x"', '%s.Klass()' % rng.choice(self.mods), '[1]', 'n'])
+                if choice < 0.5:
+                    L[i] = ind + 'yield ' + expr
+                elif choice < 0.7:
+                    L[i] = ind + 'return ' + expr
+                else:
+                    L.insert(i + 1, ind + 'yield ' + expr)
         elif k == 'edit_sig':
             # change a def's parameter list, keep every call site's text and bracket position
             defs = [i for i, l in enumerate(L) if re.match(r'\s*def \w+\(', l)]
@@ -241,6 +271,10 @@ def sample_probes(rng, text, n):
     parens = []
     dots = []
     for ln, l in enumerate(lines, 1):
+        if ln >= 2 and lines[ln - 2].rstrip().endswith(',') and '(' in lines[ln - 2] and l.startswith(' '):
+            # second line of a multi-line call: the cursor sits behind the bracket's line
+            parens.append((ln, len(l) - len(l.lstrip())))
+            parens.append((ln, len(l) - len(l.lstrip())))
         for m in IDENT.finditer(l):
             if m.group(0) not in KEYWORDS:
                 idents.append((ln, m.start(), m.end()))
